@@ -20,4 +20,16 @@ func gen(g *vh.Gen) {
 	}
 }
 
-func main() { vh.Main(gen, sd.Exec) }
+func genAll(g *vh.Gen) {
+	gen(g)
+	sd.GenCollide(g)
+}
+
+func exec(kind string, in []string) []string {
+	if kind == "collide" {
+		return sd.ExecCollide(in)
+	}
+	return sd.Exec(kind, in)
+}
+
+func main() { vh.Main(genAll, exec) }
